@@ -439,7 +439,7 @@ func runC02(c *C) {
 	}
 	rec(nil)
 	// structured + mutated
-	n := c.N(60000, 3000000)
+	n := c.N(60000, 500000)
 	for i := 0; i < n && !c.Failed(); i++ {
 		b := genFields(c, 1+c.Rand.Intn(3), 4)
 		m, kind := mutate(c, b)
